@@ -11,7 +11,9 @@ for x in res:
     open("/tmp/mut_current.diff", "w").write(x["diff"])
     subprocess.run(["git", "-C", "/repo", "apply", "/tmp/mut_current.diff"], check=True)
     try:
-        rs = dict(mutsweep.run_check(c) for c in x["checks"])
+        only = [c for c in __import__("os").environ.get("ONLY", "").split(",") if c]
+        rs = dict(x["checks"])
+        rs.update(dict(mutsweep.run_check(c) for c in x["checks"] if not only or c in only))
     finally:
         subprocess.run(["git", "-C", "/repo", "checkout", "--", "."], check=True)
     x["checks"] = rs
